@@ -8,7 +8,9 @@
                    leaves in the stored entry (= dests unless overwritten)
         entries run through Profiles.Set in order, then Get(src, dst, mac) and Get(nil, nil, nil)
         → list=<id;prefix;mac;dests of each final entry, comma separated | -> get=<hex> nilget=<hex>
-    pseq <src/dst/mac>,… <entry>*   one resolver wired as in run.go answers the queries of these
+    pseq <src/dst/mac[/e]>,… <entry>*   (/e: the tuple reaches the resolver through query.New on a wire query
+        carrying the address as ECS and the MAC as dnsmasq's MAC option; the model's client tuple is the same)
+    pseq … continued:   one resolver wired as in run.go answers the queries of these
         clients in order → seq=<ctx:path:profile>,…  (every query is resolved under the profile of
         ITS tuple, whatever was asked before)
     purl <id>        the DoH side for profile <id>: cache context, request path, ResolveInfo.Profile
@@ -74,7 +76,7 @@ def stepProf (toks : List String) : Option String :=
       some s!"ctx={toHexOrDash ctx} path={toHexOrDash path} profile={toHexOrDash profile}"
   | "pseq" :: tuples :: entries =>
     let parseT (t : String) : Option Client :=
-      match t.splitOn "/" with
+      match (match t.splitOn "/" with | [a, b, m, "e"] => [a, b, m] | x => x) with
       | [a, b, m] => do
         let src ← parseOptIP a
         let dst ← parseOptIP b
